@@ -51,7 +51,7 @@ Proof.
       destruct ok; [apply IH in H; lia|pinj H; lia].
 Qed.
 
-Lemma read_escape_line ch i ln ls p0 piece i2 ln' ls' es :
+Lemma read_escape_line {fx : FxEscape} ch i ln ls p0 piece i2 ln' ls' es :
   read_escape ch i ln ls p0 = (piece, i2, ln', ls', es) -> ln <= ln'.
 Proof.
   unfold read_escape. destruct (nth_byte ch i) as [c|]; [|intros H; pinj H; lia].
@@ -119,6 +119,7 @@ Proof.
 Qed.
 
 Section WithOracle.
+  Context {fx : FxEscape}.
   Variable gbk_runes : list N -> Z.
 
   Lemma scan_short_f_line : forall f delim ch i ss acc ln ls p0 errs str s' es ov,
